@@ -10,6 +10,10 @@ CHECKS = {
             "Decides the schema-level necessary conditions of the CBOR round trip for every store: each encoded type is also decoded, every field of every encoded type has a unique index or is one of three run-time dirty flags (so no index or store is dropped or rebuilt), custom encode/decode helpers are wire-symmetric, and from_cbor_file changes nothing after decoding except two copied settings. Value-level equality is not decided.",
             "trusts minicbor's derive macros and syn; value equality of the reloaded store is not decided",
             "DESIGN.md section 4 C11", "syn"),
+    "C13": ("proof", "formula extraction from the syntax tree + exhaustive order-type enumeration (finite decision procedure for comparison-only formulas); finite pattern-coverage evaluation over the operator space",
+            "For all pairs of ranges: each pairwise relation arm, extracted from the current source as a comparison formula, is proved equal to its interval definition on every weak ordering of the four end points (and every limit / whitespace-predicate value), the converse / symmetry / implication laws hold between the extracted formulas, negation is the exact complement in all four test functions, toggle_negate/toggle_all/with_limit change exactly one field on the whole operator space, every operator/modifier combination reaches a real arm (no unreachable!()), no unsigned subtraction can underflow, and tests on singleton sets equal the pairwise test (loops unrolled once). Sets with more than one member are decided only for pattern coverage.",
+            "trusted: syn, the formula evaluator's closed vocabulary (anything outside it is reported, not skipped), the SPEC table of interval definitions written from the doc comments; the whitespace predicate is uninterpreted; overlap of zero-width selections is checked for symmetry only",
+            "DESIGN.md section 4 C13, A7", "syn"),
 }
 
 NA = {
